@@ -87,6 +87,8 @@ func suiteConfig(r *rng, n int) {
 		os.Exit(3)
 	}
 	defer config.Close()
+	chains := map[string]*elton.Elton{}
+	chainOf := map[string]interface{}{}
 	for i := 0; i < n; i++ {
 		cr := r.fork(uint64(i))
 		c := &config.PikeConfig{}
@@ -247,12 +249,18 @@ func suiteConfig(r *rng, n int) {
 			probes = "ok"
 			for _, sc := range c.Servers {
 				s := server.Get(sc.Addr)
-				e := elton.New()
-				e.Use(middleware.NewDefaultError())
-				e.Use(server.NewResponder())
-				e.Use(server.NewCache(s))
-				e.Use(server.NewProxy(s))
-				e.ALL("/*", func(c *elton.Context) error { return nil })
+				// the handler chain of a server is built ONCE, when the server object appears (as server.Start does);
+				// a server that is updated in place keeps serving through the chain it was started with
+				e := chains[sc.Addr]
+				if e == nil || chainOf[sc.Addr] != interface{}(s) {
+					e = elton.New()
+					e.Use(middleware.NewDefaultError())
+					e.Use(server.NewResponder())
+					e.Use(server.NewCache(s))
+					e.Use(server.NewProxy(s))
+					e.ALL("/*", func(c *elton.Context) error { return nil })
+					chains[sc.Addr], chainOf[sc.Addr] = e, s
+				}
 				for _, u := range c.Upstreams {
 					if us := upstream.Get(u.Name); us != nil {
 						us.Proxy = func(c *elton.Context) error {
